@@ -401,6 +401,12 @@ def run(ctx):
     cfgs.append(([1], 2, None, False))
     cfgs.append(([1, -1], 4, None, False))
     cfgs.append(([0, 1, 1], 8, None, False))
+    # labels spelled with hex letters, among them `e`, the letter of the prefix (default and custom bases)
+    cfgs.append(([1, 1, 1], 13, None, False))
+    cfgs.append(([1, -1, 1, 0], 12, None, False))
+    cfgs.append(([1, 1, -1], 12, None, True))
+    cfgs.append(([rng.choice((1, -1, 0)) for _ in range(3)], None, random_custom_basis(rng, 3, 12), False))
+    cfgs.append(([rng.choice((1, -1, 0)) for _ in range(3)], None, random_custom_basis(rng, 3, 13), False))
     simp_func_pass(ctx)
     duplicate_spelling_pass(ctx)
     lines, plan = [], []
